@@ -346,7 +346,12 @@ C04(scn, obs) ==
     LET c == obs.cl
         e == scn.hd.end IN
     IF scn.hd.end.how = "barehttp" /\ ~HandlerFaulty(scn) THEN
-        (IF c.end.code = CodeOfHttp(scn.hd.status) THEN {} ELSE {"C04.BareHttpMapped"})
+        \* (a bare 2xx other than 200 is not a failure for a REST backend; what it is for an RPC backend the property does not say)
+        (IF c.end.code = CodeOfHttp(scn.hd.status) \/ scn.hd.status \in 200..299 THEN {} ELSE {"C04.BareHttpMapped"})
+    \* the backend said "failed" (non-zero grpc-status, non-2xx HTTP status, an error object) but the
+    \* code it attached is 0 / missing: whatever code the client gets, it is not success
+    ELSE IF scn.hd.fault \in {"errcode0", "detailscode0"} THEN
+        (IF c.end.code # 0 THEN {} ELSE {"C04.FailureStaysFailure"})
     ELSE IF HandlerFaulty(scn) \/ e.how \notin {"normal", "trailersonly"} \/ e.code = 0 THEN {}
     ELSE IF DefinedCode(e.code) THEN
         (IF c.end.code = e.code THEN {} ELSE {"C04.CodePreserved"})
